@@ -23,7 +23,7 @@ CFG = dict(
     spec_what="the combined / subtracted report is not the entry-wise sum / difference of the individual reports (or: common sample type "
               "dropped, unit not the finest, -diff_base percentage base is not the base total, -proto round trip changes the report, profile minus itself not empty)",
     trusted_base=["translator gen-unittable (dumps measurement.UnitTypes)",
-                  "export shims harness/overlay/internal/driver/zz_verif_c07.go (call fetchProfiles / generateRawReport / generateReport(["proto"]) with in-memory sources and an in-memory output Writer, a no-op symbolizer and a silent UI)",
+                  "export shims harness/overlay/internal/driver/zz_verif_c07.go (call fetchProfiles / generateRawReport / generateReport(proto) with in-memory sources and an in-memory output Writer, a no-op symbolizer and a silent UI)",
                   "float64 arithmetic of ScaleN/Normalize/Scale modelled by exact rationals: cases where a -normalize product sits on a rounding "
                   "boundary with a non-dyadic ratio (class 901) or magnitudes reach 2^50 where float64 is used (class 902) are skipped and counted",
                   "profile.Merge's re-interning of functions/locations/mappings (C03) - generators give all profiles of a tuple one symbol table with pairwise distinct locations and function names",
